@@ -142,3 +142,48 @@ Definition ex_input : binput :=
 Definition ex_cfg (m : mode) : vcfg := {| c_spk := 129600; c_maxev := 62; c_mode := m |}.
 Definition ex_ctx : vctx :=
   {| x_prev_slot := 129600 * 66; x_prev_blockno := 9; x_prev_hh := zeros 32; x_nonce := zeros 32; x_pool := 1; x_total := 2; x_reg := [] |}.
+
+(* ------------------------------------------------------------------ *)
+(* the idealised world is inhabited: every pool leads, a genuine header exists *)
+Lemma zeros_len n : length (zeros n) = n.
+Proof. apply repeat_length. Qed.
+
+Lemma IP_leads m sk slot nonce pool total :
+  m <> BadMode -> length nonce = 32%nat -> pool <> 0 -> total <> 0 -> slot <= max_int64 ->
+  exists proof, is_slot_leader IP m sk slot nonce pool total = LOk proof (zeros 64) /\ length proof = 80%nat.
+Proof.
+  intros Hm Ln Hp Ht Hs. unfold is_slot_leader, leneq. rewrite Ln. cbn [Nat.eqb negb].
+  destruct (total =? 0) eqn:E1; [apply N.eqb_eq in E1; contradiction|].
+  destruct (pool =? 0) eqn:E2; [apply N.eqb_eq in E2; contradiction|].
+  destruct (max_int64 <? slot) eqn:E3; [apply N.ltb_lt in E3; lia|].
+  destruct m; [| |contradiction]; cbn [vrf_input];
+    cbn [IP vrf_prove thr]; rewrite (pad_len 80) by lia; rewrite zeros_len; cbn [Nat.eqb negb];
+    unfold below, leader_value.
+  - change (zeros 64) with (0 :: zeros 63) at 1.
+    assert (L : (nat_of_bytes (H256 IP (76 :: zeros 64)) <? K + 1) = true).
+    { apply N.ltb_lt. unfold nat_of_bytes, K. cbn [IP H256]. lia. }
+    change (0 :: zeros 63) with (zeros 64). rewrite L. eexists. split; [reflexivity|apply pad_len; lia].
+  - assert (L : (nat_of_bytes (zeros 64) <? K + 1) = true).
+    { apply N.ltb_lt. replace (nat_of_bytes (zeros 64)) with 0 by (vm_compute; reflexivity). lia. }
+    change (zeros 64) with (0 :: zeros 63) at 1. change (0 :: zeros 63) with (zeros 64). rewrite L.
+    eexists. split; [reflexivity|apply pad_len; lia].
+Qed.
+
+(* in the idealised instance a genuine header exists for every well-sized input,
+   so the premise [build_header P st i = BOk h] of C40_tamper is satisfiable there *)
+Lemma IP_builds st i :
+  b_mode st <> BadMode ->
+  length (i_prev i) = 32%nat -> length (i_nonce i) = 32%nat -> length (i_bhash i) = 32%nat ->
+  length (b_issuer st) = 32%nat -> length (b_csig st) = 64%nat -> b_hot st = kes_vk IP (b_kes_seed st) ->
+  i_pool i <> 0 -> i_total i <> 0 -> i_slot i <= max_int64 ->
+  exists h, build_header IP st i = BOk h.
+Proof.
+  intros Hm Lp Ln Lb Li Lc Eh Hp Ht Hs.
+  destruct (IP_leads (b_mode st) (b_vrf_sk st) (i_slot i) (i_nonce i) (i_pool i) (i_total i) Hm Ln Hp Ht Hs) as (proof & HL & _).
+  apply (build_succeeds IP st i proof (zeros 64)); try assumption.
+  - cbn [IP vrf_pk]. apply pad_len. lia.
+  - rewrite Eh. cbn [IP kes_vk]. apply pad_len. lia.
+  - symmetry. exact Eh.
+  - intros _. cbn [IP vrf_prove]. do 2 eexists. split; [reflexivity|]. split; [apply pad_len; lia|apply zeros_len].
+  - intros m. cbn [IP kes_sig]. eexists. reflexivity.
+Qed.
